@@ -213,6 +213,23 @@ def check(s):
             oksc = out is not None and isinstance(out, tuple) and out[0] == "tuple" and out[1][0] == ("call", ("global", "mujoco.mjx.step"), (("attr", state, "model"), ("param", "$d")), ())
         s.ob("C20.3", "AbstractG1Env.transition" + tag, oksc, "the physics is stepped frame_skip times with the episode's own (randomised) model", loc, key="step-with-state-model",
              detail=str(len(steps)))
+    # the `dt` the phase advances by is the duration of one control step: frame_skip physics steps of the model's timestep
+    bi = s.builder(inline=set())
+    nzi = Normalizer(bi)
+    n_dt = 0
+    seen_dt = set()
+    for p in live(s.paths(bi, "AbstractG1Env", "_init_common")):
+        a = p.self_attrs
+        k_ = (a.get("dt"), a.get("frame_skip"))
+        if k_ in seen_dt or a.get("dt") is None:
+            continue
+        seen_dt.add(k_)
+        n_dt += 1
+        s.eq("C20.3", "AbstractG1Env._init_common.dt", nzi, a.get("dt", NONE), s.ref(bi, "jnp.array(M.opt.timestep * FS)", {"M": a.get("mujoco_model", NONE), "FS": a.get("frame_skip", NONE)}),
+             "dt == model timestep * frame_skip (the duration of the frame_skip physics steps one control step runs)", s.loc("AbstractG1Env", "_init_common"), key="control-period",
+             necessary_for="the phase advances by 2π·frequency·dt per control step, dt being the time a control step simulates")
+    if n_dt == 0:
+        raise AnalysisError("AbstractG1Env._init_common: dt is not assigned")
     # ---------------------------------------------------------------- C20.4
     m, fn = s.function(GM, "desired_foot_height")
     p = one(s.fpaths(bg, GM, "desired_foot_height"), "desired_foot_height")
